@@ -7,6 +7,7 @@ import PsdVerif.Model.PayloadLayerInfo
 import PsdVerif.Model.PayloadSimple
 import PsdVerif.Model.PayloadEffects
 import PsdVerif.Model.PayloadPatterns
+import PsdVerif.Model.PayloadLinked
 import PsdVerif.Model.DescriptorTables
 import PsdVerif.Lemmas.Descriptor3
 
@@ -157,5 +158,35 @@ def patterns : List Pattern := [patternRgb, patternIndexed]
 /-- excluded: an array that is not written but carries content; the empty colour table of a non-indexed pattern -/
 def vmaUnwrittenContent : VMA := ⟨0, vmaData.content⟩
 def patternEmptyTable : Pattern := { patternRgb with colorTable := some [] }
+
+/-! ### unit 5 -/
+
+def liFD : B := [108, 105, 70, 68]
+def liFE : B := [108, 105, 70, 69]
+def liFA : B := [108, 105, 70, 65]
+def uuid : B := [53, 97, 57, 54, 99, 52, 48, 52, 45]
+def fname : Str := [108, 111, 103, 111, 46, 112, 110, 103]
+def kPng : B := [112, 110, 103, 32]
+def blk : Descriptor.Block := Descriptor.Samples.block
+
+/-- embedded data, version 1: nothing optional -/
+def linkedData1 : LinkedLayer := ⟨liFD, 1, uuid, fname, kPng, [0, 0, 0, 0], none, none, none, none, some [1, 2, 3, 4, 5], none, none, none⟩
+/-- embedded data, version 7, with an open-file descriptor, child id, modification time, lock state -/
+def linkedData7 : LinkedLayer :=
+  ⟨liFD, 7, uuid, [0x1F600], kPng, kPng, none, some blk, none, none, some [], some [99, 49], some 4607182418800017408, some 1⟩
+/-- external file, version 1: no data at all · 2: data last · 3: data after the file size · 4: with a time stamp -/
+def linkedExt (version : Nat) : LinkedLayer :=
+  ⟨liFE, version, uuid, fname, kPng, [0, 0, 0, 0], some 18446744073709551615, none, some blk,
+   (if version > 3 then some ⟨2024, [2, 29, 23, 59], 4633641066610819072⟩ else none),
+   (if version > 1 then some [9, 8, 7] else none),
+   (if version ≥ 5 then some [] else none), (if version ≥ 6 then some 0 else none), (if version ≥ 7 then some 255 else none)⟩
+def linkedAlias1 : LinkedLayer := ⟨liFA, 1, [], [], [0, 0, 0, 0], [0, 0, 0, 0], none, none, none, none, none, none, none, none⟩
+def linkedAll : List LinkedLayer :=
+  [linkedData1, linkedData7, linkedExt 1, linkedExt 2, linkedExt 3, linkedExt 4, linkedExt 5, linkedExt 6, linkedExt 7, linkedAlias1]
+
+/-- excluded by (iii): an alias with data; an external item of version 1 with data; a child id in version 4 -/
+def linkedAliasData : LinkedLayer := { linkedAlias1 with data := some [1, 2, 3] }
+def linkedExt1Data : LinkedLayer := { linkedExt 1 with data := some [1, 2, 3] }
+def linkedChildV4 : LinkedLayer := { linkedExt 4 with childId := some [120] }
 
 end PsdVerif.Payload.Samples
